@@ -39,7 +39,7 @@ type MakeChannel struct {
 func (f *MakeChannel) Call(s *slip.Scope, args slip.List, depth int) slip.Object {
 	slip.CheckArgCount(s, depth, f, args, 1, 1)
 	size, ok := args[0].(slip.Fixnum)
-	if !ok || int(size) < 0 {
+	if !ok || int(size) < 0 || slip.ArrayMaxDimension < size {
 		slip.TypePanic(s, depth, "size", args[0], "non-negative fixnum")
 	}
 	return Channel(make(chan slip.Object, int(size)))
